@@ -1,1 +1,2 @@
+pub mod nan;
 pub mod sel;
